@@ -132,6 +132,26 @@ def rule_cross_class_state_keyed_by_class(ctx, rep: Report, rid="X4"):
     args = [unparse(a) for a in call.args] if call else []
     rep.add(rid, "extract_docstring:the memory key receives the caller's class and method", args[:3] == ps[1:4], f"{args}",
             f"{ci.mod.rel}:{ex.lineno}")
+    # the key under which the overload counter is kept spells the class, the method and the argument names as given
+    ddi = prog.method("XMLDocParser", "determine_documenting_index")
+    dps = func_params(ddi)[1:]
+    keys = [n_.slice for n_ in walk_no_nested(ddi) if isinstance(n_, ast.Subscript) and unparse(n_.value) == "self._memory"]
+    if not keys:
+        raise AnalysisError("determine_documenting_index: no access to self._memory found")
+    from .prog import inline_locals
+    for kx in {unparse(k): k for k in keys}.values():
+        kexp = inline_locals(ddi, kx)
+        whole = set()
+        if isinstance(kexp, ast.JoinedStr):
+            whole = {v.value.id for v in kexp.values if isinstance(v, ast.FormattedValue) and isinstance(v.value, ast.Name)}
+        elif isinstance(kexp, ast.Tuple):
+            whole = {e.id for e in kexp.elts if isinstance(e, ast.Name)}
+        derived = sorted({x.id for x in ast.walk(kexp) if isinstance(x, ast.Name) and x.id in dps} - whole)
+        rebound2 = sorted(p_ for p_ in dps[:2] if local_assignments(ddi).get(p_))
+        rep.add(rid, "determine_documenting_index:the counter key contains class and method exactly as given", set(dps[:2]) <= whole and not rebound2,
+                f"key `{unparse(kexp)[:90]}`: taken whole {sorted(whole)}, only derived {derived}, re-assigned {rebound2}: a key built from a "
+                f"shortened class name (e.g. its last component) makes unrelated classes with the same simple name share one overload "
+                f"counter, so wrapping / ignoring one changes the docstrings of the other", f"{ci.mod.rel}:{kx.lineno}")
     pwc = prog.cls("PybindWrapper")
     wm = prog.method("PybindWrapper", "_wrap_method")
     call = next((c for c in ast.walk(wm) if isinstance(c, ast.Call) and isinstance(c.func, ast.Attribute) and c.func.attr == "extract_docstring"), None)
